@@ -3,6 +3,7 @@ package c16
 import (
 	"bytes"
 	"encoding/hex"
+	"errors"
 	"fmt"
 	"runtime/metrics"
 	"strings"
@@ -251,6 +252,22 @@ func head(s string, n int) string {
 	return s[:n]
 }
 
+// usable: a result is only looked at when the call reported no error (or the
+// documented "trailing bits missing" error that comes with valid messages).
+func usable(msgs []sei.SEIMessage, err error) []sei.SEIMessage {
+	if err != nil && !errors.Is(err, sei.ErrRbspTrailingBitsMissing) {
+		return nil
+	}
+	return msgs
+}
+
+func usable1(msg sei.SEIMessage, err error) sei.SEIMessage {
+	if err != nil {
+		return nil
+	}
+	return msg
+}
+
 func cp(b []byte) []byte { return append([]byte(nil), b...) }
 
 // retag returns in with its first len(hdr) bytes replaced by hdr (so that a
@@ -437,7 +454,7 @@ func (x *runCtx) runOps() {
 	for _, v := range [][]byte{in, retag(in, 0x06)} {
 		v := v
 		var msgs []sei.SEIMessage
-		x.call("avc.ParseSEINalu(nil)", len(v), func() { msgs, _ = avc.ParseSEINalu(v, nil) })
+		x.call("avc.ParseSEINalu(nil)", len(v), func() { msgs = usable(avc.ParseSEINalu(v, nil)) })
 		x.useMsgs("avc.ParseSEINalu", len(v), msgs)
 		for i, sps := range m.avcSEISPS {
 			if i != 0 && !x.isSEISeed() && (i+x.sel())%3 != 0 {
@@ -445,7 +462,7 @@ func (x *runCtx) runOps() {
 			}
 			sps := sps
 			msgs = nil
-			x.call("avc.ParseSEINalu(sps)", len(v), func() { msgs, _ = avc.ParseSEINalu(v, sps) })
+			x.call("avc.ParseSEINalu(sps)", len(v), func() { msgs = usable(avc.ParseSEINalu(v, sps)) })
 			x.useMsgs("avc.ParseSEINalu", len(v), msgs)
 		}
 	}
@@ -520,7 +537,7 @@ func (x *runCtx) runOps() {
 	for _, v := range [][]byte{in, retag(in, 0x4e, 0x01), retag(in, 0x50, 0x01)} {
 		v := v
 		var msgs []sei.SEIMessage
-		x.call("hevc.ParseSEINalu(nil)", len(v), func() { msgs, _ = hevc.ParseSEINalu(v, nil) })
+		x.call("hevc.ParseSEINalu(nil)", len(v), func() { msgs = usable(hevc.ParseSEINalu(v, nil)) })
 		x.useMsgs("hevc.ParseSEINalu", len(v), msgs)
 		for i, sps := range m.hevcSEISPS {
 			if i != 0 && !x.isSEISeed() && (i+x.sel())%5 != 0 {
@@ -528,7 +545,7 @@ func (x *runCtx) runOps() {
 			}
 			sps := sps
 			msgs = nil
-			x.call("hevc.ParseSEINalu(sps)", len(v), func() { msgs, _ = hevc.ParseSEINalu(v, sps) })
+			x.call("hevc.ParseSEINalu(sps)", len(v), func() { msgs = usable(hevc.ParseSEINalu(v, sps)) })
 			x.useMsgs("hevc.ParseSEINalu", len(v), msgs)
 		}
 	}
@@ -557,14 +574,20 @@ func (x *runCtx) runOps() {
 
 	// ---- SEI package ----
 	var sds []sei.SEIData
-	x.call("sei.ExtractSEIData", n, func() { sds, _ = sei.ExtractSEIData(bytes.NewReader(in)) })
+	x.call("sei.ExtractSEIData", n, func() {
+		var err error
+		sds, err = sei.ExtractSEIData(bytes.NewReader(in))
+		if err != nil && !errors.Is(err, sei.ErrRbspTrailingBitsMissing) {
+			sds = nil
+		}
+	})
 	for i := range sds {
 		sd := &sds[i]
 		x.ok()
 		for _, codec := range []sei.Codec{sei.AVC, sei.HEVC} {
 			codec := codec
 			var msg sei.SEIMessage
-			x.call("sei.DecodeSEIMessage", n, func() { msg, _ = sei.DecodeSEIMessage(sd, codec) })
+			x.call("sei.DecodeSEIMessage", n, func() { msg = usable1(sei.DecodeSEIMessage(sd, codec)) })
 			if msg != nil {
 				x.useMsgs("sei.DecodeSEIMessage", n, []sei.SEIMessage{msg})
 			}
@@ -618,7 +641,7 @@ func (x *runCtx) seiDirect(pl []byte, types []uint) {
 	}
 	one := func(op string, f func() (sei.SEIMessage, error)) {
 		var msg sei.SEIMessage
-		x.call(op, n, func() { msg, _ = f() })
+		x.call(op, n, func() { msg = usable1(f()) })
 		if msg != nil {
 			x.useMsgs(op, n, []sei.SEIMessage{msg})
 		}
